@@ -217,6 +217,39 @@ def _native_roundtrips(tier="quick", seed=0):
             rec["replay"] = {"confirmed": True, "detail": detail, "witness_class": "autoshape-readback"}
             rec["model"] = {"member": m.name}
         obls.append(rec)
+    # adjustments of every preset: a fresh shape reports the definition's defaults (normalised), an explicit value -- zero included --
+    # replaces the default of that adjustment only
+    defs = _preset_defs()
+    from pptx.shapes.autoshape import AutoShapeType
+
+    bad = None
+    for m in MSO_SHAPE:
+        try:
+            sh = slide.shapes.add_shape(m, Emu(0), Emu(0), Emu(100), Emu(100))
+        except Exception:
+            continue
+        k = len(sh.adjustments)
+        if not k:
+            continue
+        fresh = [sh.adjustments[i] for i in range(k)]
+        want_defaults = [v for _, v in AutoShapeType.default_adjustment_values(m)]
+        for i in range(k):
+            for v in (0.0, 0.5, -0.25, 1.0):
+                sh2 = slide.shapes.add_shape(m, Emu(0), Emu(0), Emu(100), Emu(100))
+                sh2.adjustments[i] = v
+                got = [sh2.adjustments[j] for j in range(k)]
+                want = list(fresh)
+                want[i] = v
+                if any(abs(a - b) > 1e-5 for a, b in zip(got, want)):
+                    bad = bad or "%s: adjustments[%d] = %r gives %r, expected %r" % (m.name, i, v, got, want)
+                sh2._element.getparent().remove(sh2._element)
+        sh._element.getparent().remove(sh._element)
+    nm = "C20.native.explicit_adjustment_replaces_the_default_of_that_adjustment_only"
+    rec = {"name": nm, "base": nm, "kind": "bounded", "status": "refuted" if bad else "discharged", "backend": "native", "time": 0, "path": 0}
+    if bad:
+        rec["replay"] = {"confirmed": True, "detail": bad, "witness_class": "adjustment"}
+        rec["model"] = None
+    obls.append(rec)
     unsupported = []
     for ct in XL_CHART_TYPE:
         nm = "C20.native.chart_type_roundtrip[%s]" % ct.name
